@@ -38,7 +38,7 @@ def generate(seed, tier):
                "depth": 1, "max_stmts": 3, "max_blocks": 2, "ps": False, "shifts": False, "divmod": False,
                "arith": ["+", "-"], "stmts": ["expr", "expr", "in"], "nonrand": True}
         g = progs.ListGen(rng, cfg)
-        return g.list_program(gates=("randsz-aggregate",)), g, cfg
+        return g.list_program(gates=("randsz-aggregate",), extra=("cond_nonrand", "nested_if")), g, cfg
     prog, g, cfg = scen.prefer_sat(st, build, lambda o: "K0")
     k0 = [c for c in prog["classes"] if c["name"] == "K0"][0]
     dynl = [f for f in k0["fields"] if f["k"] == "l" and not f.get("rsz")]
@@ -101,6 +101,9 @@ def generate(seed, tier):
                     return orng.choice(edefs[lf["en"]]["items"])[1]
                 return go.in_range_value({"k": "s", "w": lf["w"], "s": lf["s"]})
             k = orng.choice(["lappend", "lappend", "lextend", "lclear", "lassign", "setitem"])
+            if lf["n"] in prog.get("frozen", ()):
+                # a foreach indexes a second list with this list's index: lengths stay as declared
+                k = "setitem"
             if lf["n"] in fixed_idx and k in ("lclear", "lassign"):
                 # a statement names an element of this list by a fixed index: never shrink it
                 # (the library rejects a reference to a missing element with an explicit error)
@@ -166,6 +169,7 @@ def execute(rec):
     has_foreach = has_node(rec["prog"]["classes"], ("foreach",))
     has_agg = has_node(rec["prog"]["classes"], ("sum", "product", "inlist", "flist"))
     has_rsz = any(f.get("rsz") for f in lists)
+    prng = _r.Random(kernel.H(rec.get("seed", 0), "c04probe"))
     edited = set()
     nontrivial = False
 
@@ -313,6 +317,38 @@ def execute(rec):
             viol.append({"inv": inv, "cls": inv + "/" + (st["t"] if st else "inline"),
                          "detail": {"op": oi, "kind": kind, "tree": tree, "failing": fail, "stmt": st}})
             break
+        # pin-probes: points next to the returned one must be accepted exactly when the reference
+        # accepts them (a body enforced where its guard is false, or on elements the list does
+        # not expose, shows as a rejected legal point)
+        if not has_rsz and prng.random() < 0.3:
+            rp = w.rand_paths(p, tree)
+            # (an element of a list inside a list element cannot be named by fixed indices in an
+            # inline constraint: the library raises NotImplementedError - no probes there)
+            if rp and not any(sum(isinstance(x, int) for x in q) > 1 for q in rp):
+                doms = [refsem.path_domain(P, pt.cname, q) for q in rp]
+                base = [refsem._walk(tree, q) for q in rp]
+                for _ in range(2):
+                    i = prng.randrange(len(rp))
+                    c = list(base)
+                    c[i] = doms[i][prng.randrange(len(doms[i]))]
+                    t2 = refsem.copy_tree(tree)
+                    refsem.set_path(t2, rp[i], c[i])
+                    try:
+                        exp = refsem.check_tree(P, pt.cname, t2, pt.modes, pt.rangelists) is None
+                    except refsem.RefError:
+                        continue
+                    got = w.probe(p, list(zip(rp, c)))
+                    stats["probes"] = stats.get("probes", 0) + 1
+                    stats["probe_accept_expected" if exp else "probe_reject_expected"] = \
+                        stats.get("probe_accept_expected" if exp else "probe_reject_expected", 0) + 1
+                    if got != exp:
+                        viol.append({"inv": "C04.body_holds",
+                                     "cls": "C04.body_holds/probe_" + ("accepts_excluded" if got else "rejects_allowed"),
+                                     "detail": {"op": oi, "point": list(zip(rp, c)), "accepted": got,
+                                                "expected": exp, "tree": t2}})
+                        break
+                if viol:
+                    break
     sig = progs.shape_sig(rec["prog"]["classes"]) + "|" + scen.op_sig(rec["ops"])
     return {"viol": viol, "stats": stats, "digest": kernel.digest(obs),
             "sigs": [kernel.digest(sig)[:16]] if nontrivial and stats["judged_calls"] else [],
